@@ -1,6 +1,6 @@
 #!/bin/bash
 # matrix.sh <seed ids...> : all 19 quick checks against each seeded patch; writes seeded/<id>/matrix.txt
-cd /verif
+cd "$(dirname "$0")/.."
 for id in "$@"; do
   [ -f seeded/$id/matrix.txt ] && continue
   python3 tools/seedtest.py seeded/$id/patch.diff > seeded/$id/matrix.txt.tmp 2>&1 && mv seeded/$id/matrix.txt.tmp seeded/$id/matrix.txt
